@@ -198,6 +198,10 @@ def hkl_cases(rng, covered, n):
     from xfab import tools as T, laue as L, sg
     out = []
     sets = rng.sample(_settings(), n)
+    # the oblique systems always take part (2 triclinic, 13 monoclinic and 7 rhombohedral settings of 237 are rarely sampled)
+    obl = [s for s in _settings() if s['cs'] in ('triclinic', 'monoclinic') or s['cell_choice'] == 'rhombohedral']
+    obl_pick = [s for s in obl if s['no'] in (2, 166)] + rng.sample(obl, min(3, len(obl)))
+    sets = sets + [s for s in obl_pick if s not in sets]
     for s in sets:
         cc = s['cell_choice'] if s['cell_choice'] == 'rhombohedral' else 'standard'
         c = gens.conforming_cell(rng, s['cs'], cc)
@@ -209,6 +213,22 @@ def hkl_cases(rng, covered, n):
             hi_row = rows[rng.randrange(len(rows) // 2, len(rows))]
             for smin_b, smax_b in ((float(lo_row[3]), 0.3), (0.0, float(hi_row[3])), (float(lo_row[3]), float(hi_row[3]))):
                 out += hkl_one({'sgno': s['no'], 'cell_choice': cc, 'cell': c, 'sintlmin': smin_b, 'sintlmax': smax_b, 'boundary': True}, covered)
+        # small shells on oblique cells: the outer limit lies below sin(theta)/lambda of a segment's START point (-1,0,1), (1,2,0) ...,
+        # so whether a walk steps on from a start point outside the sphere decides which reflections come back inside it
+        if s['cs'] in ('triclinic', 'monoclinic') or cc == 'rhombohedral':
+            for _ in range(4):
+                c2 = gens.conforming_cell(rng, s['cs'], cc)
+                if cc == 'rhombohedral':
+                    al = rng.uniform(100.0, 116.0)
+                    c2 = [c2[0]] * 3 + [al] * 3
+                elif s['cs'] == 'triclinic':
+                    while True:
+                        ang = [rng.uniform(60, 125) for _ in range(3)]
+                        if gens.gram_d(*ang) > 0.1:
+                            break
+                    c2 = c2[:3] + ang
+                out += hkl_one({'sgno': s['no'], 'cell_choice': cc, 'cell': c2, 'sintlmin': 0.0,
+                                'sintlmax': rng.uniform(0.6, 2.2) / max(c2[:3]), 'small_shell': True}, covered)
         cc = s['cell_choice'] if s['cell_choice'] == 'rhombohedral' else 'standard'
         c = gens.conforming_cell(rng, s['cs'], cc)
         smax = rng.uniform(0.15, 0.3)
@@ -241,7 +261,7 @@ def hkl_cases(rng, covered, n):
                 out.append({'fn': 'sysabs', 'input': {'hkl': h, 'sgno': s['no']}, 'observed': 'differ', 'expected': 'equal', 'known_id': None})
     # reduce_cell
     for _ in range(max(2, n // 4)):
-        c, _k = gens.cell(rng, scaled=True)
+        c, _k = gens.cell(rng)
         covered.add('reduce_cell')
         a, b = T.reduce_cell(c), L.reduce_cell(c)
         if not same(a, b, rtol=1e-9):
